@@ -281,10 +281,15 @@ func genMod1(t *rapid.T) Mod1Case {
 	b := rapid.IntRange(52, 58).Draw(t, "logScale")
 	c.Params.LogScale = b
 	c.Seed = rapid.Uint64().Draw(t, "seed")
-	c.Type = []string{"sin", "cos"}[rapid.IntRange(0, 1).Draw(t, "type")]
+	c.Type = []string{"sin", "cos", "cosdiscrete"}[rapid.IntRange(0, 2).Draw(t, "type")]
 	c.K = rapid.IntRange(1, 6).Draw(t, "K")
 	if c.Type == "cos" {
 		c.DoubleAngle = rapid.IntRange(1, 2).Draw(t, "doubleAngle")
+	}
+	if c.Type == "cosdiscrete" {
+		// Han-Ki approximation: nodes clustered around the integers, "requires a minimum degree of 2*(K-1)"
+		c.K = rapid.IntRange(2, 8).Draw(t, "Kd")
+		c.DoubleAngle = rapid.IntRange(1, 3).Draw(t, "doubleAngleD")
 	}
 	// smallest degree (biased to 2^k-1, 2^k) whose interpolation error on the (shrunk) interval is below 2^-30
 	kk := float64(c.K) / math.Exp2(float64(c.DoubleAngle))
@@ -300,11 +305,20 @@ func genMod1(t *rapid.T) Mod1Case {
 		}
 		deg = p - rapid.IntRange(0, 1).Draw(t, "degPow2minus1")
 	}
+	if c.Type == "cosdiscrete" {
+		deg = 2*c.K - 1 + rapid.IntRange(0, 16).Draw(t, "degD")
+		if deg > 31 {
+			deg = 31
+		}
+	}
 	c.Degree = deg
 	if rapid.Bool().Draw(t, "arcsine") && c.Type == "sin" {
 		c.InvDegree = []int{3, 5, 7}[rapid.IntRange(0, 2).Draw(t, "invDegree")]
 	}
 	c.LogMessageRatio = rapid.IntRange(4, 8).Draw(t, "logMessageRatio")
+	if c.Type == "cosdiscrete" {
+		c.LogMessageRatio = rapid.IntRange(4, 10).Draw(t, "logMessageRatioD")
+	}
 	c.Scaling = mod1Scalings[rapid.IntRange(0, len(mod1Scalings)-1).Draw(t, "scaling")]
 	for i, n := 0, rapid.IntRange(0, 2).Draw(t, "nMore"); i < n; i++ {
 		c.More = append(c.More, mod1Scalings[rapid.IntRange(0, len(mod1Scalings)-1).Draw(t, fmt.Sprintf("more%d", i))])
@@ -334,8 +348,11 @@ func runMod1(c Mod1Case, rec *h.Rec) error {
 		DoubleAngle:     c.DoubleAngle,
 		Mod1InvDegree:   c.InvDegree,
 	}
-	if c.Type == "cos" {
+	switch c.Type {
+	case "cos":
 		lit.Mod1Type = mod1.CosContinuous
+	case "cosdiscrete":
+		lit.Mod1Type = mod1.CosDiscrete
 	}
 	mp, err := mod1.NewParametersFromLiteral(params, lit)
 	if err != nil {
@@ -346,8 +363,63 @@ func runMod1(c Mod1Case, rec *h.Rec) error {
 	if math.Abs(mp.QDiff-qDiff) > 1e-12 {
 		return h.Failf("C13:mod1:QDiff", "got %v want %v", mp.QDiff, qDiff)
 	}
-	if want := advertisedDepth(c.Degree) + c.DoubleAngle + map[bool]int{true: advertisedDepth(c.InvDegree), false: 0}[c.InvDegree > 0]; lit.Depth() != want {
-		return h.Failf("C13:mod1:Depth", "ParametersLiteral.Depth() = %d, the evaluation consumes %d levels", lit.Depth(), want)
+	actualDeg := mp.Mod1Poly.Degree()
+	if c.Type != "cosdiscrete" && actualDeg != c.Degree {
+		return h.Failf("C13:mod1:degree", "Mod1Degree %d, polynomial of degree %d", c.Degree, actualDeg)
+	}
+	if c.Type == "cosdiscrete" && (actualDeg > c.Degree || actualDeg < 2*c.K-2) {
+		return h.Failf("C13:mod1:degree", "CosDiscrete: K %d Mod1Degree %d, polynomial of degree %d", c.K, c.Degree, actualDeg)
+	}
+	consumed := advertisedDepth(actualDeg) + c.DoubleAngle + map[bool]int{true: advertisedDepth(c.InvDegree), false: 0}[c.InvDegree > 0]
+	if c.Type != "cosdiscrete" && lit.Depth() != consumed || lit.Depth() < consumed {
+		return h.Failf("C13:mod1:Depth", "ParametersLiteral.Depth() = %d, the evaluation consumes %d levels", lit.Depth(), consumed)
+	}
+
+	// reference model of the circuit itself on lattigo's coefficients (independent arithmetic): Chebyshev polynomial at
+	// u (+ the cosine offset), r double-angle steps y -> 2y^2 - s, s -> s^2, then the arcsine polynomial. It separates
+	// "the circuit evaluates its polynomials correctly" (noise-level tolerance) from the quality of the approximation.
+	polyRef := coeffsOf(mp.Mod1Poly)
+	var invRef []bc
+	if mp.Mod1InvPoly != nil {
+		invRef = coeffsOf(*mp.Mod1InvPoly)
+	}
+	sPoly := 0.0
+	for k, v := range polyRef {
+		sPoly += v.abs() * math.Max(1, float64(k*k))
+	}
+	maxInter := 0.0 // largest intermediate magnitude of the reference model over all slots and evaluations
+	pipeline := func(ui, scaling float64) float64 {
+		track := func(v float64) {
+			if a := math.Abs(v); a > maxInter || a != a {
+				maxInter = a
+			}
+		}
+		if c.Type != "sin" {
+			ui -= 0.25 / float64(c.K)
+		}
+		sc := 1.0
+		if invRef == nil {
+			sc = math.Pow(scaling, 1/math.Exp2(float64(c.DoubleAngle)))
+		}
+		y := refEval(true, polyRef, bcNew(ui, 0))
+		yf, _ := y.re.Float64()
+		yf *= sc
+		track(yf)
+		sq := mp.Sqrt2Pi * sc
+		for i := 0; i < c.DoubleAngle; i++ {
+			sq *= sq
+			yf = 2*yf*yf - sq
+			track(yf)
+		}
+		if invRef != nil {
+			acc := 0.0
+			for k := len(invRef) - 1; k >= 0; k-- {
+				ck, _ := invRef[k].re.Float64()
+				acc = acc*yf + ck*scaling
+			}
+			yf = acc
+		}
+		return yf
 	}
 
 	kgen := rlwe.NewKeyGenerator(params)
@@ -422,14 +494,44 @@ func runMod1(c Mod1Case, rec *h.Rec) error {
 		if err != nil || pmsg != "" {
 			return h.Failf("C13:mod1:"+c.Type+":error"+stage, "evaluation %d (scaling %v): K %d degree %d doubleAngle %d invDegree %d: %v %s", round, scaling, c.K, c.Degree, c.DoubleAngle, c.InvDegree, err, pmsg)
 		}
-		if wantLevel := params.MaxLevel() - lit.Depth(); out.Level() != wantLevel {
-			return h.Failf("C13:mod1:level", "output level %d, want LevelQ - Depth() = %d", out.Level(), wantLevel)
+		if wantLevel := params.MaxLevel() - consumed; out.Level() != wantLevel {
+			return h.Failf("C13:mod1:level", "output level %d, want LevelQ - %d", out.Level(), wantLevel)
 		}
 		got := make([]float64, slots)
 		if err = ecd.Decode(dec.DecryptNew(out), got); err != nil {
 			return h.Failf("C13:mod1:decode", "%v", err)
 		}
-		// tolerance: interpolation remainder (x 4 per double angle), truncation of the arcsine series, scheme error
+		// (1) the circuit against its reference model: scheme error only
+		tolPipe := math.Ldexp(float64(params.N()), 12) * math.Exp2(-float64(c.Params.LogScale)) * (1 + sPoly) * math.Pow(4, float64(c.DoubleAngle)) * (1 + scaling) * 4
+		worstApprox := 0.0
+		for i := range got {
+			pipeline(u[i], scaling)
+		}
+		if !(maxInter <= 4) {
+			// The interpolant is not a bounded approximation on these inputs (CosDiscrete close to its minimum degree):
+			// the plaintext overflows the modulus and every slot is garbage. Outside what the circuit can represent: unjudged.
+			rec.Class("mod1:reference-model-unbounded(unjudged)")
+			return nil
+		}
+		for i := range got {
+			w := pipeline(u[i], scaling)
+			if e := math.Abs(got[i] - w); !(e <= tolPipe) {
+				return h.Failf("C13:mod1:"+c.Type+":circuit"+stage, "evaluation %d of %v: slot %d: x/K=%v got %v, reference evaluation of the same polynomials gives %v (error 2^%.1f, bound 2^%.1f; K %d degree %d doubleAngle %d invDegree %d scaling %v)", round, append([]float64{c.Scaling}, c.More...), i, u[i], got[i], w, math.Log2(e), math.Log2(tolPipe), c.K, actualDeg, c.DoubleAngle, c.InvDegree, scaling)
+			}
+			worstApprox = math.Max(worstApprox, math.Abs(w-want[i]*scaling))
+		}
+		if c.Type == "cosdiscrete" {
+			// no closed-form bound for the Han-Ki interpolant: the approximation error is recorded, not judged
+			rec.Note("cosdiscrete-approx-log2err", math.Log2(worstApprox+1e-300))
+			if !(tolPipe < math.Ldexp(1, -10)*scaling*epsMax) {
+				discriminating = false
+			}
+			if p, q := polyFingerprint(&mp.Mod1Poly), polyFingerprint(mp.Mod1InvPoly); p != fpPoly || q != fpInv {
+				return h.Failf("C13:mod1:parameters-modified", "after evaluation %d with scaling %v the coefficients held by the Parameters changed", round, scaling)
+			}
+			continue
+		}
+		// (2) against the function: interpolation remainder (x 4 per double angle), truncation of the arcsine series, scheme error
 		tol := 2*chebRemainder(kk, c.Degree)*math.Pow(4, float64(c.DoubleAngle))*qDiff*scaling + math.Ldexp(1, -20)
 		if c.InvDegree > 0 {
 			s := math.Sin(2 * math.Pi * epsMax)
@@ -486,7 +588,13 @@ var minimaxConfigs = []minimaxConfig{
 	{3, 10, []int{3, 7}},
 	{4, 10, []int{7, 7}},
 	{5, 12, []int{7, 15}},
+	// thorough tier only (10-30 s of Remez search each)
+	{8, 16, []int{15, 15}},
+	{10, 20, []int{7, 15, 15}},
 }
+
+// minimaxQuickConfigs is the number of configurations the quick tier draws from.
+const minimaxQuickConfigs = 3
 
 var (
 	minimaxMu    sync.Mutex
@@ -515,7 +623,11 @@ func genMinimax(t *rapid.T) MinimaxCase {
 	var c MinimaxCase
 	c.Params = genPrec128Spec(t, 4, 5, 4, 5)
 	c.Seed = rapid.Uint64().Draw(t, "seed")
-	c.Config = rapid.IntRange(0, len(minimaxConfigs)-1).Draw(t, "config")
+	nCfg := minimaxQuickConfigs
+	if h.Thorough() {
+		nCfg = len(minimaxConfigs)
+	}
+	c.Config = rapid.IntRange(0, nCfg-1).Draw(t, "config")
 	c.ValSeed = rapid.Uint64().Draw(t, "valSeed")
 	c.Pattern = []string{"uniform", "edge", "mix"}[rapid.IntRange(0, 2).Draw(t, "pattern")]
 	c.Twice = rapid.Bool().Draw(t, "twice")
